@@ -2406,6 +2406,33 @@ example : getRosterIn (List.range 6) (· / 3)
     (run {} [.on 0 (.set 1), .on 1 (.set 1), .on 0 .remove, .on 0 .timer, .on 0 (.reap 0)]) 0 = true ∧
     ((run {} [.on 0 (.set 1), .on 1 (.set 1), .on 0 .remove, .on 0 .timer, .on 0 (.reap 0)]).at_ 0).slot = .absent := by decide
 
+/-- `GetRoster` on the abstract store: a roster is found iff some stored tree carries it -/
+def absGetRoster (ids : List Nat) (ro : Nat → Nat) (a : Abs) (r : Nat) : Bool :=
+  ids.any fun k => (match a.trees k with | .present _ => true | _ => false) && ro k == r
+
+/-- **`GetRoster` is part of the refinement**: the store model's answer is the abstract store's — it depends on the
+map alone (not on pending removals, generations, routines waiting for the lock, the closing flag) -/
+theorem getRoster_refines (ids : List Nat) (ro : Nat → Nat) (s : St) (r : Nat) :
+    getRosterIn ids ro s r = absGetRoster ids ro (abs s) r := by
+  unfold getRosterIn absGetRoster
+  congr 1
+  funext k
+  simp only [abs, get]
+  cases (s.at_ k).slot <;> rfl
+
+/-- so on the abstract store: `GetRoster ro = true` iff some id of the range holds a tree over `ro` -/
+theorem absGetRoster_iff (ids : List Nat) (ro : Nat → Nat) (a : Abs) (r : Nat) :
+    absGetRoster ids ro a r = true ↔ ∃ k ∈ ids, (∃ c, a.trees k = .present c) ∧ ro k = r := by
+  unfold absGetRoster
+  rw [List.any_eq_true]
+  constructor
+  · rintro ⟨k, hk, h⟩
+    refine ⟨k, hk, ?_⟩
+    cases ht : a.trees k <;> simp [ht] at h ⊢
+    exact h
+  · rintro ⟨k, hk, ⟨c, hc⟩, hr⟩
+    exact ⟨k, hk, by simp [hc, hr]⟩
+
 end Store
 
 /-! ### the code regions the model stands for
